@@ -109,6 +109,16 @@ def canon_eq(a: str, b: str, op="==") -> str:
     return "%s %s %s" % (x, op, y)
 
 
+def _simple_ref(e):
+    while isinstance(e, ast.Attribute):
+        e = e.value
+    return isinstance(e, (ast.Name, ast.Constant))
+
+
+def _as_list(x):
+    return x if isinstance(x, list) else [x]
+
+
 class _Canon(ast.NodeTransformer):
     """Orientation-free form of the analysed tree, applied in place right after parsing (positions are kept):
     `a == b` / `a != b` with the textually larger operand first; `if not T: A else: B` as `if T: B else: A`
@@ -132,12 +142,83 @@ class _Canon(ast.NodeTransformer):
 
     def visit_Assign(self, node):
         self.generic_visit(node)
+        # a, b = (x, y)  ->  a = x; b = y     (when no value reads a target and, for non-local targets, the values
+        # are pure: the order of evaluations and stores is then immaterial)
+        if len(node.targets) == 1 and isinstance(node.targets[0], ast.Tuple) and isinstance(node.value, ast.Tuple) \
+                and len(node.targets[0].elts) == len(node.value.elts) and len(node.value.elts) > 1 and \
+                not any(isinstance(e, ast.Starred) for e in node.targets[0].elts + node.value.elts):
+            tg, vs = node.targets[0].elts, node.value.elts
+            ttxt = {ast.unparse(t) for t in tg}
+            roots = set()
+            for t in tg:
+                b = t
+                while isinstance(b, (ast.Attribute, ast.Subscript)):
+                    b = b.value
+                if isinstance(b, ast.Name) and not isinstance(t, ast.Name):
+                    roots.add(ast.unparse(t.value))
+            reads = {ast.unparse(n) for v in vs for n in ast.walk(v) if isinstance(n, (ast.Name, ast.Attribute,
+                                                                                         ast.Subscript))}
+            local = all(isinstance(t, ast.Name) for t in tg)
+            # a value may read its own target and the targets still to be assigned, not one assigned before it
+            early = any(ast.unparse(n) == ast.unparse(tg[j]) for i, v in enumerate(vs) for n in ast.walk(v)
+                        if isinstance(n, (ast.Name, ast.Attribute, ast.Subscript)) for j in range(i))
+            if (local and not early or not (ttxt & reads)) and not (roots & reads) and \
+                    (local or all(_pure_expr(v) for v in vs)) and \
+                    all(isinstance(t, (ast.Name, ast.Attribute, ast.Subscript)) for t in tg):
+                out = []
+                for t, v in zip(tg, vs):
+                    out.extend(_as_list(self.visit_Assign(ast.copy_location(ast.Assign(targets=[t], value=v), node))))
+                return out
         # d[k] = d[k] op v  ->  d[k] op= v   (entries of containers; whole names / attributes keep their spelling)
         if len(node.targets) == 1 and isinstance(node.targets[0], ast.Subscript) and \
                 isinstance(node.value, ast.BinOp) and not isinstance(node.targets[0].slice, ast.Slice) and \
                 ast.unparse(node.value.left) == ast.unparse(node.targets[0]):
             return ast.copy_location(ast.AugAssign(target=node.targets[0], op=node.value.op, value=node.value.right),
                                      node)
+        return node
+
+    def visit_Expr(self, node):
+        self.generic_visit(node)
+        # X.update({K: V for K in IT})  ->  for K in IT: X[K] = V      (V does not read X, so the order of the
+        # evaluations and the stores does not matter)
+        c = node.value
+        if isinstance(c, ast.Call) and isinstance(c.func, ast.Attribute) and c.func.attr == "update" and \
+                len(c.args) == 1 and not c.keywords and isinstance(c.args[0], ast.DictComp):
+            dc = c.args[0]
+            x = ast.unparse(c.func.value)
+            if len(dc.generators) == 1 and not dc.generators[0].ifs and not dc.generators[0].is_async and \
+                    isinstance(dc.generators[0].target, ast.Name) and isinstance(dc.key, ast.Name) and \
+                    dc.key.id == dc.generators[0].target.id and \
+                    not any(isinstance(n, (ast.Attribute, ast.Name)) and ast.unparse(n) == x
+                            for n in ast.walk(dc.value)) and \
+                    not any(isinstance(n, (ast.Call, ast.Lambda, ast.NamedExpr)) for n in ast.walk(c.func.value)):
+                g = dc.generators[0]
+                tgt = ast.Subscript(value=c.func.value, slice=ast.Name(id=dc.key.id, ctx=ast.Load()), ctx=ast.Store())
+                st = ast.Assign(targets=[tgt], value=dc.value, lineno=node.lineno)
+                loop = ast.For(target=g.target, iter=g.iter, body=[st], orelse=[], lineno=node.lineno)
+                ast.copy_location(loop, node)
+                ast.copy_location(st, node)
+                ast.fix_missing_locations(loop)
+                return loop
+        return node
+
+    def visit_For(self, node):
+        self.generic_visit(node)
+        # for x in (a, b, c): body  ->  body[x := a]; body[x := b]; body[x := c]     (a, b, c names or attribute chains)
+        it = node.iter
+        if isinstance(it, (ast.Tuple, ast.List)) and 0 < len(it.elts) <= 8 and isinstance(node.target, ast.Name) and \
+                not node.orelse and all(_simple_ref(e) for e in it.elts):
+            x = node.target.id
+            inner = [n for st in node.body for n in ast.walk(st)]
+            if not any(isinstance(n, (ast.Break, ast.Continue, ast.FunctionDef, ast.Lambda, ast.Return)) for n in inner) \
+                    and not any(isinstance(n, ast.Name) and n.id == x and isinstance(n.ctx, (ast.Store, ast.Del))
+                                for n in inner):
+                import copy as _copy
+                out = []
+                for e in it.elts:
+                    for st in node.body:
+                        out.append(_Subst({x: e}).visit(_copy.deepcopy(st)))
+                return out
         return node
 
     def visit_IfExp(self, node):
@@ -148,8 +229,785 @@ class _Canon(ast.NodeTransformer):
         return node
 
 
+def _terminates(body):
+    if not body:
+        return False
+    last = body[-1]
+    if isinstance(last, (ast.Return, ast.Raise, ast.Continue, ast.Break)):
+        return True
+    if isinstance(last, ast.If) and last.orelse:
+        return _terminates(last.body) and _terminates(last.orelse)
+    return False
+
+
+def _nest_block(block, in_loop):
+    """`if T: ...; return/raise/continue` followed by more statements  ==  `if T: ... else: <the rest>`.
+    Guard clauses and early exits are brought into the if/else form (a trailing `continue` that the nesting makes
+    redundant is dropped), so that both spellings of a branch look alike to the idiom rules."""
+    for st in block:
+        for fld in ("body", "orelse", "finalbody"):
+            sub = getattr(st, fld, None)
+            if isinstance(sub, list) and sub and isinstance(sub[0], ast.stmt):
+                loop = in_loop
+                if isinstance(st, (ast.For, ast.While, ast.AsyncFor)) and fld == "body":
+                    loop = True
+                elif isinstance(st, (ast.FunctionDef, ast.AsyncFunctionDef, ast.ClassDef)):
+                    loop = False
+                setattr(st, fld, _nest_block(sub, loop))
+        if isinstance(st, ast.Try):
+            for h in st.handlers:
+                h.body = _nest_block(h.body, in_loop)
+    out = []
+    i = 0
+    while i < len(block):
+        st = block[i]
+        rest = block[i + 1:]
+        if isinstance(st, ast.If) and not st.orelse and rest and _terminates(st.body) and \
+                not isinstance(st.body[-1], ast.Break):
+            st.orelse = _nest_block(rest, in_loop)
+            if in_loop and isinstance(st.body[-1], ast.Continue):
+                st.body = st.body[:-1] or [ast.copy_location(ast.Pass(), st.body[-1])]
+            if isinstance(st.test, ast.UnaryOp) and isinstance(st.test.op, ast.Not):
+                st.test = st.test.operand
+                st.body, st.orelse = st.orelse, st.body
+            if len(st.body) == 1 and isinstance(st.body[0], ast.Pass) and st.orelse:
+                # `if T: pass else: R`  ->  `if not T: R`
+                st.test = ast.copy_location(ast.UnaryOp(op=ast.Not(), operand=st.test), st.test)
+                st.body, st.orelse = st.orelse, []
+            out.append(st)
+            break
+        out.append(st)
+        i += 1
+    return out
+
+
+PURE_FUNCS = {"len", "int", "float", "str", "bool", "min", "max", "sum", "abs", "range", "list", "tuple", "sorted", "zip",
+              "enumerate", "isinstance", "hasattr", "round", "any", "all", "slice", "argmax", "argmin", "delayed"}
+PURE_MODULES = {"np", "math", "numpy"}
+PURE_METHODS = {"sum", "mean", "std", "min", "max", "copy", "reshape", "tolist", "keys", "values", "items", "get",
+                "astype", "nonzero", "any", "all", "apply", "ravel", "squeeze", "transpose", "dot", "argmax", "argmin",
+                "flatten", "cumsum", "round", "index", "count", "format", "startswith", "endswith", "intersection",
+                "union", "difference", "tocsr", "item"}
+MUTATING_METHODS = {"append", "extend", "insert", "remove", "pop", "clear", "sort", "reverse", "update", "setdefault",
+                    "add", "discard", "fill", "resize", "put", "popitem", "partition", "shuffle", "fit", "partial_fit"}
+
+
+def _pure_expr(e):
+    """no call in e can have a side effect, draw a random number or create an object whose identity matters"""
+    for n in ast.walk(e):
+        if isinstance(n, (ast.Lambda, ast.Yield, ast.YieldFrom, ast.Await, ast.NamedExpr)):
+            return False
+        if isinstance(n, ast.Call):
+            f = n.func
+            if isinstance(f, ast.Name):
+                if f.id not in PURE_FUNCS:
+                    return False
+            elif isinstance(f, ast.Attribute):
+                base = f.value
+                if isinstance(base, ast.Name) and base.id in PURE_MODULES:
+                    if f.attr in ("random", "seterr"):
+                        return False
+                elif isinstance(base, ast.Attribute) and isinstance(base.value, ast.Name) and \
+                        base.value.id in PURE_MODULES:
+                    if base.attr == "random":
+                        return False            # np.random.*
+                elif f.attr not in PURE_METHODS:
+                    return False
+                elif isinstance(base, ast.Attribute) and ast.unparse(base).endswith(".rng"):
+                    return False
+            else:
+                return False
+    return True
+
+
+def _shape_only(e):
+    """e reads nothing but the dimensions of arrays held in locals (len(x), x.shape[1], x.size, x.ndim): numpy
+    arrays are never resized in place here, so no statement between definition and use can change the value"""
+    if isinstance(e, ast.Constant):
+        return True
+    if isinstance(e, ast.Name):
+        return False                    # the array itself is not a dimension
+    if isinstance(e, ast.Attribute):
+        return e.attr in ("shape", "size", "ndim") and isinstance(e.value, ast.Name)
+    if isinstance(e, ast.Subscript):
+        return isinstance(e.value, ast.Attribute) and e.value.attr == "shape" and \
+            isinstance(e.value.value, ast.Name) and isinstance(e.slice, ast.Constant)
+    if isinstance(e, ast.Call):
+        return isinstance(e.func, ast.Name) and e.func.id == "len" and len(e.args) == 1 and not e.keywords and \
+            isinstance(e.args[0], ast.Name)
+    if isinstance(e, ast.BinOp):
+        return _shape_only(e.left) and _shape_only(e.right)
+    if isinstance(e, ast.Compare):
+        return _shape_only(e.left) and all(_shape_only(c) for c in e.comparators)
+    return False
+
+
+def _self_field_of(target):
+    """X when target is self.X, self.X[..], self.X.y ... (the field of self a store through target goes into)"""
+    b = target
+    fld = None
+    while isinstance(b, (ast.Attribute, ast.Subscript)):
+        if isinstance(b, ast.Attribute) and isinstance(b.value, ast.Name) and b.value.id == "self":
+            fld = b.attr
+        b = b.value
+    return fld if isinstance(b, ast.Name) and b.id == "self" else None
+
+
+def _is_barrier(st, reads_self, expr=None):
+    """can executing st change what a pure expression (reading self.* iff reads_self) evaluates to? With `expr`
+    given, a store into field X of self only matters when expr reads an attribute called X (two differently named
+    fields of one object are taken not to alias)."""
+    fields = {n.attr for n in ast.walk(expr) if isinstance(n, ast.Attribute)} if expr is not None else None
+    for n in ast.walk(st):
+        tgt = None
+        if isinstance(n, (ast.Attribute, ast.Subscript)) and isinstance(n.ctx, (ast.Store, ast.Del)):
+            tgt = n
+        elif isinstance(n, ast.AugAssign) and not isinstance(n.target, ast.Name):
+            tgt = n.target
+        if tgt is not None:
+            fld = _self_field_of(tgt)
+            if fields is None or fld is None or fld in fields:
+                return True
+        if isinstance(n, ast.Call) and not _pure_expr(n):
+            return True
+    return False
+
+
+def _forward_stores(fn):
+    """Equalities between a local and an entry of a field of self, as a forward must-analysis over the structured
+    body: after `x = self.F[k]` or `self.F[k] = x` the two hold the same value until x is rebound, field F is written
+    or a call may write it; at the end of an if/else an equality holds if it holds on both branches. Where an
+    equality holds, reads of the local are spelled as reads of the entry. With dead and single-use temporaries
+    removed afterwards, `x = self.F[k] + e; self.F[k] = x; ... x ...` reads like `self.F[k] += e; ... self.F[k] ...`
+    (two differently named fields of self are taken not to alias)."""
+    import copy as _copy
+    for n in ast.walk(fn):
+        if isinstance(n, (ast.FunctionDef, ast.AsyncFunctionDef, ast.Lambda, ast.ClassDef)) and n is not fn:
+            return
+        if isinstance(n, (ast.Global, ast.Nonlocal, ast.Try, ast.With)):
+            return
+
+    a_ = fn.args
+    params = {x.arg for x in a_.posonlyargs + a_.args + a_.kwonlyargs}
+
+    def stable(t):
+        if not isinstance(t, (ast.Attribute, ast.Subscript)) or _self_field_of(t) is None:
+            return False
+        for n in ast.walk(t):
+            if isinstance(n, (ast.Call, ast.Slice, ast.BinOp, ast.Lambda, ast.IfExp, ast.Compare, ast.BoolOp)):
+                return False
+        return True
+
+    def impure_calls(node):
+        return [n for n in ast.walk(node) if isinstance(n, ast.Call) and
+                not _pure_expr(ast.Call(func=n.func, args=[], keywords=[]))]
+
+    def rewrite(node, eq):
+        if not eq:
+            return node
+
+        class R(ast.NodeTransformer):
+            def visit_Name(self, n):
+                if isinstance(n.ctx, ast.Load) and n.id in eq:
+                    new = _copy.deepcopy(eq[n.id])
+                    for m in ast.walk(new):
+                        if hasattr(m, "ctx"):
+                            m.ctx = ast.Load()
+                    return ast.copy_location(new, n)
+                return n
+
+            def visit_Lambda(self, n):
+                return n
+
+            def visit_ListComp(self, n):
+                return n
+            visit_GeneratorExp = visit_SetComp = visit_DictComp = visit_ListComp
+        return R().visit(node)
+
+    def kill_name(eq, name):
+        eq.pop(name, None)
+        for k in list(eq):
+            if any(isinstance(x, ast.Name) and x.id == name for x in ast.walk(eq[k])):
+                del eq[k]
+
+    def kill_field(eq, fld):
+        for k in list(eq):
+            if fld is None or _self_field_of(eq[k]) == fld:
+                del eq[k]
+
+    def effects(node, eq):
+        """apply what executing the expressions / simple statement `node` can change"""
+        for n in ast.walk(node):
+            if isinstance(n, ast.Name) and isinstance(n.ctx, (ast.Store, ast.Del)):
+                kill_name(eq, n.id)
+            tgt = None
+            if isinstance(n, (ast.Attribute, ast.Subscript)) and isinstance(n.ctx, (ast.Store, ast.Del)):
+                tgt = n
+            elif isinstance(n, ast.AugAssign) and not isinstance(n.target, ast.Name):
+                tgt = n.target
+            if tgt is not None:
+                kill_field(eq, _self_field_of(tgt))
+            if isinstance(n, ast.Call) and not _pure_expr(n):
+                eq.clear()
+
+    def loads_ok(value):
+        """every read in `value` happens before any effect of it: no impure call, or just one at the top"""
+        imp = impure_calls(value)
+        return not imp or (len(imp) == 1 and imp[0] is value)
+
+    def block(stmts, eq):
+        for i, st in enumerate(stmts):
+            if isinstance(st, ast.If):
+                if loads_ok(st.test):
+                    st.test = rewrite(st.test, eq)
+                effects(st.test, eq)
+                a = block(st.body, dict(eq))
+                b = block(st.orelse, dict(eq))
+                eq.clear()
+                eq.update({k: v for k, v in a.items() if k in b and ast.dump(b[k]) == ast.dump(v)})
+            elif isinstance(st, (ast.For, ast.While)):
+                head = st.iter if isinstance(st, ast.For) else None
+                if head is not None and loads_ok(head):
+                    st.iter = rewrite(st.iter, eq)
+                inner = dict(eq)
+                effects(st, inner)              # whatever any turn of the loop can change does not hold inside it
+                out = block(st.body, dict(inner))
+                block(st.orelse, dict(inner))
+                eq.clear()
+                eq.update({k: v for k, v in inner.items() if k in out and ast.dump(out[k]) == ast.dump(v)})
+            elif isinstance(st, ast.Assign) and len(st.targets) == 1:
+                t, v = st.targets[0], st.value
+                if loads_ok(v) and not any(isinstance(n, ast.Call) for n in ast.walk(t)):
+                    st.value = v = rewrite(v, eq)
+                    if isinstance(t, ast.Subscript):
+                        t.slice = rewrite(t.slice, eq)
+                effects(st, eq)
+                if isinstance(t, ast.Name) and t.id not in params and stable(v) and not any(
+                        isinstance(x, ast.Name) and x.id == t.id for x in ast.walk(v)):
+                    eq[t.id] = v
+                elif isinstance(v, ast.Name) and v.id not in params and stable(t) and not any(
+                        isinstance(x, ast.Name) and x.id == v.id for x in ast.walk(t)):
+                    tl = _copy.deepcopy(t)
+                    for m in ast.walk(tl):
+                        if hasattr(m, "ctx"):
+                            m.ctx = ast.Load()
+                    eq[v.id] = tl
+            elif isinstance(st, (ast.AugAssign, ast.Expr, ast.Return, ast.AnnAssign)) and \
+                    getattr(st, "value", None) is not None:
+                if loads_ok(st.value) and not (isinstance(st, ast.AugAssign) and impure_calls(st.target)):
+                    st.value = rewrite(st.value, eq)
+                effects(st, eq)
+            else:
+                effects(st, eq)
+        return eq
+
+    block(fn.body, {})
+    ast.fix_missing_locations(fn)
+
+
+def _drop_dead_assignments(fn):
+    """`x = <pure expression>` whose value no path reads (backward liveness over the structured body)"""
+    for n in ast.walk(fn):
+        if isinstance(n, (ast.FunctionDef, ast.AsyncFunctionDef, ast.Lambda, ast.ClassDef)) and n is not fn:
+            return False
+        if isinstance(n, (ast.Global, ast.Nonlocal, ast.Try, ast.With)):
+            return False
+    everything = {n.id for n in ast.walk(fn) if isinstance(n, ast.Name)}
+    dead = []
+
+    def loads(node):
+        return {n.id for n in ast.walk(node) if isinstance(n, ast.Name) and isinstance(n.ctx, ast.Load)}
+
+    def stores(node):
+        return {n.id for n in ast.walk(node) if isinstance(n, ast.Name) and isinstance(n.ctx, (ast.Store, ast.Del))}
+
+    def block(stmts, live, mark):
+        for st in reversed(stmts):
+            live = transfer(st, live, mark)
+        return live
+
+    def transfer(st, live, mark):
+        if isinstance(st, ast.Assign) and len(st.targets) == 1 and isinstance(st.targets[0], ast.Name):
+            x = st.targets[0].id
+            if x not in live and _pure_expr(st.value):
+                if mark:
+                    dead.append(st)
+                return live
+            return (live - {x}) | loads(st.value)
+        if isinstance(st, ast.If):
+            return loads(st.test) | block(st.body, live, mark) | block(st.orelse, live, mark)
+        if isinstance(st, (ast.For, ast.While)):
+            after = live | block(st.orelse, live, False)
+            head = loads(st.iter) if isinstance(st, ast.For) else loads(st.test)
+            tgt = stores(st.target) if isinstance(st, ast.For) else set()
+            inner = after | head
+            for _ in range(3):
+                inner = inner | (block(st.body, inner | after, False) - tgt) | head
+            block(st.body, inner | after, mark)
+            block(st.orelse, live, mark)
+            return inner | after
+        if isinstance(st, (ast.Return, ast.Raise)):
+            return loads(st)
+        if isinstance(st, (ast.Break, ast.Continue)):
+            return set(everything)
+        if isinstance(st, ast.AugAssign):
+            return live | loads(st) | stores(st)
+        return (live - stores(st)) | loads(st)
+
+    block(fn.body, set(), True)
+    if not dead:
+        return False
+    ids = {id(d) for d in dead}
+
+    def prune(stmts):
+        out = [s2 for s2 in stmts if id(s2) not in ids]
+        for s2 in out:
+            for fld in ("body", "orelse"):
+                b = getattr(s2, fld, None)
+                if isinstance(b, list) and b and isinstance(b[0], ast.stmt):
+                    nb = prune(b)
+                    if not nb and fld == "body":
+                        nb = [ast.copy_location(ast.Pass(), s2)]
+                    setattr(s2, fld, nb)
+        return out
+    fn.body = prune(fn.body) or [ast.Pass()]
+    return True
+
+
+def _inline_temporaries(fn):
+    """Removes single-assignment locals that merely name a pure expression: every use gets the expression itself.
+    (Done on the analysed copy only; evaluation is pure and its inputs cannot change between definition and uses, so
+    the meaning of the function is unchanged.) Rules then see `rewards[decisions == arm].size` whether or not the
+    author gave the selection a name."""
+    changed = True
+    rounds = 0
+    while changed and rounds < 12:
+        changed = False
+        rounds += 1
+        stores, loads = {}, {}
+        nested = False
+        for n in ast.walk(fn):
+            if isinstance(n, (ast.FunctionDef, ast.AsyncFunctionDef, ast.Lambda, ast.ClassDef)) and n is not fn:
+                nested = True
+            if isinstance(n, (ast.Global, ast.Nonlocal)):
+                nested = True
+            if isinstance(n, ast.Name):
+                (stores if isinstance(n.ctx, (ast.Store, ast.Del)) else loads).setdefault(n.id, []).append(n)
+        if nested:
+            return
+        a = fn.args
+        params = {x.arg for x in a.posonlyargs + a.args + a.kwonlyargs}
+        if a.vararg:
+            params.add(a.vararg.arg)
+        if a.kwarg:
+            params.add(a.kwarg.arg)
+        mutated = set()
+        for n in ast.walk(fn):
+            if isinstance(n, (ast.Subscript, ast.Attribute)) and isinstance(n.ctx, (ast.Store, ast.Del)):
+                b = n.value
+                while isinstance(b, (ast.Subscript, ast.Attribute)):
+                    b = b.value
+                if isinstance(b, ast.Name):
+                    mutated.add(b.id)
+            if isinstance(n, ast.AugAssign):
+                b = n.target
+                while isinstance(b, (ast.Subscript, ast.Attribute)):
+                    b = b.value
+                if isinstance(b, ast.Name):
+                    mutated.add(b.id)
+            if isinstance(n, ast.Call) and isinstance(n.func, ast.Attribute) and n.func.attr in MUTATING_METHODS:
+                b = n.func.value
+                while isinstance(b, (ast.Subscript, ast.Attribute)):
+                    b = b.value
+                if isinstance(b, ast.Name):
+                    mutated.add(b.id)
+            if isinstance(n, ast.keyword) and n.arg == "out" and isinstance(n.value, ast.Name):
+                mutated.add(n.value.id)
+
+        def blocks(node):
+            for fld in ("body", "orelse", "finalbody"):
+                b = getattr(node, fld, None)
+                if isinstance(b, list) and b and isinstance(b[0], ast.stmt):
+                    yield b
+            if isinstance(node, ast.Try):
+                for h in node.handlers:
+                    yield h.body
+        todo = [fn]
+        while todo and not changed:
+            node = todo.pop()
+            for blk in blocks(node):
+                for i, st in enumerate(blk):
+                    todo.append(st)
+                    if not (isinstance(st, ast.Assign) and len(st.targets) == 1 and isinstance(st.targets[0], ast.Name)):
+                        continue
+                    t = st.targets[0].id
+                    if t in params or t in mutated or len(stores.get(t, [])) != 1 or not loads.get(t):
+                        continue
+                    e = st.value
+                    if isinstance(e, (ast.List, ast.Dict, ast.Set, ast.ListComp, ast.DictComp, ast.SetComp,
+                                      ast.GeneratorExp, ast.Constant)) and not isinstance(e, ast.Constant):
+                        continue
+                    if not _pure_expr(e):
+                        continue
+                    names = {x.id for x in ast.walk(e) if isinstance(x, ast.Name)}
+                    if any(len(stores.get(x, [])) > 1 or x in mutated and x not in params for x in names):
+                        continue
+                    if t in names:
+                        continue
+                    reads_self = any(isinstance(x, (ast.Attribute, ast.Subscript)) for x in ast.walk(e)) and \
+                        not _shape_only(e)
+                    # every use lies in the statements that follow the definition in its own block
+                    rest = blk[i + 1:]
+                    uses_after = [x for s2 in rest for x in ast.walk(s2) if isinstance(x, ast.Name) and x.id == t
+                                  and isinstance(x.ctx, ast.Load)]
+                    if len(uses_after) != len(loads[t]):
+                        continue
+                    last = max((k for k, s2 in enumerate(rest) if any(isinstance(x, ast.Name) and x.id == t
+                                                                      for x in ast.walk(s2))), default=-1)
+                    if reads_self and any(_is_barrier(s2, True, e) for s2 in rest[:last]):
+                        continue
+                    if reads_self and last >= 0:
+                        # within the last using statement the use must not follow a barrier either: accept simple
+                        # statements, and compound ones only if they contain no barrier at all
+                        s_last = rest[last]
+                        if isinstance(s_last, (ast.If, ast.For, ast.While, ast.With, ast.Try)) and \
+                                _is_barrier(s_last, True, e):
+                            continue
+                    import copy as _copy
+                    for u in uses_after:
+                        new = _copy.deepcopy(e)
+                        par = getattr(u, "_p", None)
+                        u.__class__ = new.__class__
+                        u.__dict__.clear()
+                        u.__dict__.update(new.__dict__)
+                    blk.pop(i)
+                    if not blk:
+                        blk.append(ast.copy_location(ast.Pass(), st))
+                    changed = True
+                    break
+                if changed:
+                    break
+
+
+# ---------------------------------------------------------------------------------------------- helper inlining
+class _Subst(ast.NodeTransformer):
+    def __init__(self, mapping):
+        self.mapping = mapping
+
+    def visit_Name(self, node):
+        if node.id in self.mapping:
+            import copy as _copy
+            new = self.mapping[node.id]
+            if isinstance(new, str):
+                return ast.copy_location(ast.Name(id=new, ctx=node.ctx), node)
+            if isinstance(node.ctx, ast.Load):
+                return ast.copy_location(_copy.deepcopy(new), node)
+        return node
+
+
+def _helper_candidates(trees):
+    """private methods / functions that the rules do not know by name (see anchors.py), defined exactly once"""
+    from .anchors import KNOWN_FUNCTIONS
+    defs = {}
+    for mod, tree in trees.items():
+        for n in ast.walk(tree):
+            if isinstance(n, ast.ClassDef):
+                for m in n.body:
+                    if isinstance(m, (ast.FunctionDef, ast.AsyncFunctionDef)):
+                        defs.setdefault(m.name, []).append((mod, n, m))
+            elif isinstance(n, ast.Module):
+                for m in n.body:
+                    if isinstance(m, ast.FunctionDef):
+                        defs.setdefault(m.name, []).append((mod, None, m))
+    out = {}
+    for name, ds in defs.items():
+        if name in KNOWN_FUNCTIONS or len(ds) != 1 or not name.startswith("_") or name.startswith("__"):
+            continue
+        mod, cls, fn = ds[0]
+        a = fn.args
+        if a.vararg or a.kwarg or a.kwonlyargs or a.posonlyargs:
+            continue
+        decos = {ast.unparse(d) for d in fn.decorator_list}
+        if decos - {"staticmethod"}:
+            continue
+        if any(isinstance(x, (ast.Yield, ast.YieldFrom, ast.Await, ast.Global, ast.Nonlocal, ast.Lambda,
+                              ast.FunctionDef, ast.ClassDef, ast.Try, ast.With))
+               for b in fn.body for x in ast.walk(b)):
+            continue
+        if any(isinstance(x, ast.Call) and isinstance(x.func, ast.Attribute) and x.func.attr == name or
+               isinstance(x, ast.Call) and isinstance(x.func, ast.Name) and x.func.id == name
+               for b in fn.body for x in ast.walk(b)):
+            continue        # recursive
+        out[name] = (mod, cls, fn, "staticmethod" in decos)
+    return out
+
+
+def _helper_body(fn):
+    return [s for s in fn.body if not (isinstance(s, ast.Expr) and isinstance(s.value, ast.Constant))]
+
+
+def _returns_at_leaves(stmts):
+    """every path through stmts ends in `return <expr>` at a leaf of an if/else tree, and there is no other return"""
+    if not stmts:
+        return False
+    for s in stmts[:-1]:
+        if any(isinstance(x, ast.Return) for x in ast.walk(s)):
+            return False
+    last = stmts[-1]
+    if isinstance(last, ast.Return):
+        return last.value is not None
+    if isinstance(last, ast.If) and last.orelse:
+        return _returns_at_leaves(last.body) and _returns_at_leaves(last.orelse)
+    return False
+
+
+def _no_return(stmts):
+    return not any(isinstance(x, ast.Return) for s in stmts for x in ast.walk(s))
+
+
+def _replace_leaf_returns(stmts, make):
+    out = list(stmts[:-1])
+    last = stmts[-1]
+    if isinstance(last, ast.Return):
+        out.extend(make(last.value, last))
+    else:
+        last.body = _replace_leaf_returns(last.body, make)
+        last.orelse = _replace_leaf_returns(last.orelse, make)
+        out.append(last)
+    if not out:
+        out = [ast.copy_location(ast.Pass(), last)]
+    return out
+
+
+_INLINE_COUNTER = [0]
+
+
+def _instantiate(helper, call, is_static):
+    """(prologue statements binding the parameters, body statements with locals renamed) or None"""
+    import copy as _copy
+    fn = helper
+    params = [a.arg for a in fn.args.args]
+    if not is_static:
+        if not params:
+            return None
+        params = params[1:]
+    if any(isinstance(a, ast.Starred) for a in call.args) or any(k.arg is None for k in call.keywords):
+        return None
+    defaults = fn.args.defaults
+    dmap = dict(zip([a.arg for a in fn.args.args][len(fn.args.args) - len(defaults):], defaults))
+    actual = {}
+    for pname, a in zip(params, call.args):
+        actual[pname] = a
+    if len(call.args) > len(params):
+        return None
+    for k in call.keywords:
+        if k.arg not in params or k.arg in actual:
+            return None
+        actual[k.arg] = k.value
+    for pname in params:
+        if pname not in actual:
+            if pname not in dmap:
+                return None
+            actual[pname] = dmap[pname]
+    _INLINE_COUNTER[0] += 1
+    tag = "_h%d" % _INLINE_COUNTER[0]
+    body = [_copy.deepcopy(s) for s in _helper_body(fn)]
+    locals_ = {x.id for s in body for x in ast.walk(s) if isinstance(x, ast.Name) and isinstance(x.ctx, ast.Store)}
+    mapping = {n: n + tag for n in locals_ | set(params)}
+    pro = []
+    for pname in params:
+        if isinstance(actual[pname], ast.Name) and pname not in locals_:
+            mapping[pname] = actual[pname].id       # a parameter the helper never rebinds is the caller's local
+            continue
+        tgt = ast.Name(id=pname + tag, ctx=ast.Store())
+        pro.append(ast.copy_location(ast.Assign(targets=[tgt], value=_copy.deepcopy(actual[pname]), lineno=call.lineno),
+                                     call))
+    sub = _Subst(mapping)
+    body = [sub.visit(s) for s in body]
+    for s in pro + body:
+        for x in ast.walk(s):
+            if hasattr(x, "lineno"):
+                x.lineno = call.lineno
+                x.end_lineno = getattr(call, "end_lineno", call.lineno)
+                x.col_offset = getattr(call, "col_offset", 0)
+                x.end_col_offset = getattr(call, "end_col_offset", 0)
+    return pro, body
+
+
+def _is_helper_call(node, helpers):
+    if not isinstance(node, ast.Call):
+        return None
+    f = node.func
+    if isinstance(f, ast.Attribute) and f.attr in helpers and isinstance(f.value, ast.Name):
+        mod, cls, fn, is_static = helpers[f.attr]
+        if f.value.id == "self" and cls is not None:
+            return f.attr
+        if cls is not None and f.value.id == cls.name and is_static:
+            return f.attr
+    if isinstance(f, ast.Name) and f.id in helpers and helpers[f.id][1] is None:
+        return f.id
+    return None
+
+
+def inline_helpers(trees):
+    """Calls of simple helper methods that the rules do not know (extracted by a refactoring) are replaced by the
+    helper's body on the analysed copy: statement calls, `x = self._h(..)`, `return self._h(..)` for helpers whose
+    returns sit at the leaves of an if/else tree, and calls inside expressions for helpers that consist of a single
+    `return <expr>`. The helper definitions themselves stay where they are."""
+    helpers = _helper_candidates(trees)
+    if not helpers:
+        return
+    for rounds in range(4):
+        changed = False
+        for tree in trees.values():
+            for fn in [n for n in ast.walk(tree) if isinstance(n, (ast.FunctionDef, ast.AsyncFunctionDef))]:
+                changed |= _inline_in_function(fn, helpers)
+        if not changed:
+            break
+    # code spliced in from another module keeps meaning what it meant there: copy the imports it relies on
+    src_of = {name: trees[mod] for name, (mod, cls, hfn, st) in helpers.items()}
+
+    def bound_names(tree):
+        out = {}
+        for st in tree.body:
+            if isinstance(st, ast.ImportFrom):
+                for a in st.names:
+                    out[a.asname or a.name] = st
+            elif isinstance(st, ast.Import):
+                for a in st.names:
+                    out[(a.asname or a.name).split(".")[0]] = st
+            elif isinstance(st, (ast.FunctionDef, ast.ClassDef)):
+                out[st.name] = None
+            elif isinstance(st, ast.Assign):
+                for t in st.targets:
+                    if isinstance(t, ast.Name):
+                        out[t.id] = None
+        return out
+    import copy as _copy
+    all_imports = {}
+    for tree in trees.values():
+        for k, v in bound_names(tree).items():
+            if v is not None:
+                all_imports.setdefault(k, v)
+    for tree in trees.values():
+        have = bound_names(tree)
+        used = {x.id for x in ast.walk(tree) if isinstance(x, ast.Name) and isinstance(x.ctx, ast.Load)}
+        import builtins as _b
+        for name in sorted(used):
+            if name in have or hasattr(_b, name) or name not in all_imports:
+                continue
+            # only names that are not locals anywhere in this module: a missing module-level binding
+            if any(isinstance(x, ast.Name) and x.id == name and isinstance(x.ctx, ast.Store) for x in ast.walk(tree)) \
+                    or any(isinstance(x, ast.arg) and x.arg == name for x in ast.walk(tree)):
+                continue
+            st = all_imports[name]
+            if isinstance(st, ast.ImportFrom):
+                new = ast.ImportFrom(module=st.module, names=[_copy.deepcopy(a) for a in st.names
+                                                              if (a.asname or a.name) == name], level=st.level)
+            else:
+                new = _copy.deepcopy(st)
+            ast.copy_location(new, tree.body[0])
+            tree.body.insert(0, new)
+
+
+def _inline_in_function(fn, helpers):
+    changed = False
+
+    def do_block(block):
+        nonlocal changed
+        out = []
+        for st in block:
+            for fld in ("body", "orelse", "finalbody"):
+                sub = getattr(st, fld, None)
+                if isinstance(sub, list) and sub and isinstance(sub[0], ast.stmt):
+                    setattr(st, fld, do_block(sub))
+            if isinstance(st, ast.Try):
+                for h in st.handlers:
+                    h.body = do_block(h.body)
+            call = None
+            kind = None
+            if isinstance(st, ast.Expr) and _is_helper_call(st.value, helpers):
+                call, kind = st.value, "stmt"
+            elif isinstance(st, ast.Assign) and _is_helper_call(st.value, helpers):
+                call, kind = st.value, "assign"
+            elif isinstance(st, ast.Return) and st.value is not None and _is_helper_call(st.value, helpers):
+                call, kind = st.value, "return"
+            if call is not None:
+                name = _is_helper_call(call, helpers)
+                mod, cls, hfn, is_static = helpers[name]
+                hb = _helper_body(hfn)
+                okform = (kind == "stmt" and (_no_return(hb) or _returns_at_leaves(hb))) or \
+                         (kind in ("assign", "return") and _returns_at_leaves(hb))
+                inst = _instantiate(hfn, call, is_static) if okform and hfn is not fn else None
+                if inst is not None:
+                    pro, body = inst
+                    if kind == "assign":
+                        import copy as _copy
+                        body = _replace_leaf_returns(body, lambda e, r: [ast.copy_location(ast.Assign(
+                            targets=[_copy.deepcopy(t) for t in st.targets], value=e, lineno=st.lineno), st)])
+                    elif kind == "stmt" and not _no_return(body):
+                        body = _replace_leaf_returns(body, lambda e, r: [] if isinstance(e, (ast.Constant, ast.Name))
+                                                     else [ast.copy_location(ast.Expr(value=e), st)])
+                    out.extend(pro + body)
+                    changed = True
+                    continue
+            # helper calls nested in expressions: single `return <expr>` helpers only
+            for node in list(ast.walk(st)):
+                name = _is_helper_call(node, helpers)
+                if name is None:
+                    continue
+                mod, cls, hfn, is_static = helpers[name]
+                hb = _helper_body(hfn)
+                if len(hb) != 1 or not isinstance(hb[0], ast.Return) or hb[0].value is None or hfn is fn:
+                    continue
+                params = [a.arg for a in hfn.args.args][0 if is_static else 1:]
+                if node.keywords or len(node.args) != len(params) or any(isinstance(a, ast.Starred) for a in node.args):
+                    continue
+                import copy as _copy
+                uses = {p: sum(1 for x in ast.walk(hb[0].value) if isinstance(x, ast.Name) and x.id == p)
+                        for p in params}
+                if any(uses[p] != 1 and not _pure_expr(a) for p, a in zip(params, node.args)):
+                    continue
+                new = _Subst(dict(zip(params, node.args))).visit(_copy.deepcopy(hb[0].value))
+                for x in ast.walk(new):
+                    if hasattr(x, "lineno"):
+                        x.lineno, x.col_offset = node.lineno, node.col_offset
+                        x.end_lineno, x.end_col_offset = getattr(node, "end_lineno", node.lineno), \
+                            getattr(node, "end_col_offset", 0)
+                node.__class__ = new.__class__
+                node.__dict__.clear()
+                node.__dict__.update(new.__dict__)
+                changed = True
+            out.append(st)
+        return out
+
+    fn.body = do_block(fn.body)
+    return changed
+
+
+def canonicalise_program(trees):
+    """whole-program part of the canonical form: helper inlining, temporaries, early exits"""
+    if os.environ.get("MABSTAT_NO_INLINE") != "1":
+        for tree in trees.values():
+            tree.body = _nest_block(tree.body, False)       # early returns of helpers become leaf returns
+        inline_helpers(trees)
+    for tree in trees.values():
+        if os.environ.get("MABSTAT_NO_INLINE") != "1":
+            _Canon().visit(tree)
+            ast.fix_missing_locations(tree)
+            for n in ast.walk(tree):
+                if isinstance(n, (ast.FunctionDef, ast.AsyncFunctionDef)):
+                    _forward_stores(n)
+                    _drop_dead_assignments(n)
+                    _inline_temporaries(n)
+        _Canon().visit(tree)
+        tree.body = _nest_block(tree.body, False)
+        ast.fix_missing_locations(tree)
+
+
 def canonicalise(tree):
     _Canon().visit(tree)
+    canonicalise_program({"_": tree})
     return tree
 
 
@@ -163,11 +1021,13 @@ class ModuleInfo:
             self.tree = ast.parse(source, filename=path)
         except SyntaxError as e:
             raise AnalysisError("syntax error in %s: %s" % (path, e))
-        canonicalise(self.tree)
+        _Canon().visit(self.tree)
         self.imports: Dict[str, tuple] = {}     # local name -> (module, symbol or None)
         self.classes: Dict[str, ClassInfo] = {}
         self.functions: Dict[str, FunctionInfo] = {}
         self.globals: Dict[str, ast.AST] = {}   # module-level assignments name -> value expr
+
+    def link_parents(self):
         for n in ast.walk(self.tree):
             for ch in ast.iter_child_nodes(n):
                 ch._parent = n
@@ -183,6 +1043,9 @@ class Program:
         for req in REQUIRED_MODULES:
             if req not in self.modules:
                 raise AnalysisError("required module %s/%s.py is missing" % (PACKAGE, req))
+        canonicalise_program({m.name: m.tree for m in self.modules.values()})
+        for m in self.modules.values():
+            m.link_parents()
         self.classes: Dict[str, ClassInfo] = {}
         self.functions: Dict[str, FunctionInfo] = {}    # module-level functions by name
         self._owner_fn = {}
